@@ -24,7 +24,7 @@
 (* as-found state.                                                         *)
 (***************************************************************************)
 EXTENDS Integers, Sequences, FiniteSets, TLC, Json
-CONSTANT ParserLimit
+CONSTANT ParserLimit, DataLimit
 Guarded == {"eval_expr"}
 \* shapes whose depth is the depth of the program text / syntax tree
 TextShapes == {"paren", "bracket", "unary_not", "unary_minus", "binary_right", "binary_left", "call_args", "index_chain", "member_chain",
@@ -60,6 +60,10 @@ Spec == Init /\ [][Extend]_vars
 HasGuard == \E j \in 1..Len(path) : path[j] \in Guarded
 \* canonical: a cycle is reported from its least kind only (one rotation)
 Canonical == \A j \in 2..Len(path) : path[1] # path[j]
-TextBounded == ParserLimit /\ \A j \in 1..Len(shapes) : shapes[j] \in TextShapes
+\* shapes whose depth is the nesting of arrays in a VALUE built at run time; since fa51d41 no value
+\* nests deeper than MAX_ARRAY_DEPTH (checked where an array can gain a level)
+DataShapes == {"deep_data_clone", "deep_data_print", "deep_data_store", "deep_data_join", "deep_data_compare"}
+TextBounded == \/ ParserLimit /\ \A j \in 1..Len(shapes) : shapes[j] \in TextShapes
+               \/ DataLimit /\ \A j \in 1..Len(shapes) : shapes[j] \in DataShapes
 Emit == closed => PrintT(ToJson([tag |-> "CYCLE", kinds |-> path, shapes |-> shapes, guarded |-> HasGuard, bounded |-> TextBounded]))
 =============================================================================
